@@ -378,6 +378,7 @@ type agg struct {
 	results   []kit.RunResult
 	crashes   []crashInfo
 	timedOut  int
+	slowRuns  int // runs that exceeded the per-run wall-clock limit under load and completed when executed again alone
 	earlyStop bool
 }
 
@@ -488,11 +489,36 @@ func doCheck(spec *kit.PropertySpec, tier string, runsOverride, budgetOverride, 
 					if to {
 						a.timedOut++
 					}
-					if !done && !to && lastStarted >= 0 {
+					slowRetry := !done && !to && lastStarted >= 0 && strings.Contains(stderr, "RUN-TIMEOUT")
+					if !done && !to && lastStarted >= 0 && !slowRetry {
 						a.crashes = append(a.crashes, crashInfo{lastStarted, lastSeed, stderr, it.profile})
 						viol = true
 					}
 					a.mu.Unlock()
+					if slowRetry {
+						// The per-run wall-clock watchdog fired. On a heavily loaded machine that can be a slow run
+						// rather than a hang: execute this one run again with three times the limit. Its result
+						// counts like any other; only a second time-out is recorded as a hang.
+						job2 := job
+						job2.Start, job2.Count = lastStarted, 1
+						job2.DeadlineMs = time.Now().Add(30 * time.Minute).UnixMilli()
+						res2, _, _, done2, stderr2, _ := runWorker(bin, job2, time.Now().Add(20*time.Minute), 1, append([]string{"VERIF_RUN_TIMEOUT_S=720"}, extraEnv...)...)
+						a.mu.Lock()
+						if done2 && len(res2) == 1 {
+							a.results = append(a.results, res2...)
+							a.slowRuns++
+							if r := res2[0]; r.Violation != nil && matchKnown(knownEarly, spec.ID, r.Violation) == nil {
+								viol = true
+							}
+						} else {
+							if strings.Contains(stderr2, "RUN-TIMEOUT") {
+								stderr = stderr2
+							}
+							a.crashes = append(a.crashes, crashInfo{lastStarted, lastSeed, stderr, it.profile})
+							viol = true
+						}
+						a.mu.Unlock()
+					}
 					if viol && earlyStop {
 						stopOnce.Do(func() { close(stop) })
 					}
@@ -843,6 +869,9 @@ func doCheck(spec *kit.PropertySpec, tier string, runsOverride, budgetOverride, 
 		}
 	}
 	fmt.Printf("%s %s: %d runs (%d distinct non-trivial) in %.1fs, %.0f sim-s, faults=%v\n", spec.ID, tier, evals, len(distinct), wall, float64(simNs)/1e9, compact(faults))
+	if a.slowRuns > 0 {
+		fmt.Printf("note: %d run(s) exceeded the per-run wall-clock limit (machine load) and completed when executed again alone\n", a.slowRuns)
+	}
 	fmt.Printf("probes=%v\n", compact(probes))
 	for _, l := range lines {
 		fmt.Println(l)
